@@ -916,6 +916,23 @@ v("C15", "benign-pop-default", "benign", FOLDER,
 
         file.restore()''', None, "pop with a default")
 
+v("C01", "revert-0445172-logout-pop-without-default", "break", BASE,
+  "            session = self.remote_sessions.pop(remote_session_id, None)",
+  "            session = self.remote_sessions.pop(remote_session_id)", "R1.10", "unknown session id raises KeyError out of the request")
+v("C01", "revert-610b682-timeout-pop-without-default", "break", BASE,
+  "            self.parent.terminal._connections.pop(session.uuid, None)",
+  "            self.parent.terminal._connections.pop(session.uuid)", "R1.10", "time-out of a session without terminal connection raises")
+v("C01", "uninstall-loses-its-presence-test", "break", SWM,
+  '''        if software_name not in self.software:
+            self.sys_log.error(f"Cannot uninstall {software_name} as it is not installed")
+            return
+
+''',
+  "", "R1.10", "uninstall of an unknown name raises KeyError")
+v("C01", "benign-logout-guarded-by-membership", "benign", BASE,
+  "            session = self.remote_sessions.pop(remote_session_id, None)",
+  "            session = self.remote_sessions.pop(remote_session_id) if remote_session_id in self.remote_sessions else None", None, "explicit membership test instead of a default")
+
 # ------------------------------------------------------------------------------------------------ C03
 v("C03", "time-based-choice", "break", P + "game/agent/scripted_agents/abstract_tap.py",
   "            self.starting_node = random.choice(self.config.agent_settings.starting_nodes)",
